@@ -19,7 +19,8 @@ def info_check(r):
 def run(tier, seed):
     res = C.Result("C12", tier, seed, level="proof")
     res.assumptions = ["single-threaded; versions read through node_version64::get_body on every reachable border before/after"]
-    return seq.run_seq_property(res, "c12", CATS, 40, 400, gen_kwargs=GEN, use_oracle=False, extra_check=info_check)
+    return seq.run_seq_property(res, "c12", CATS, 40, 400, gen_kwargs=GEN, use_oracle=False, extra_check=info_check,
+                                extra_scripts=seq.gen_deep_layer_scripts)
 
 
 def replay(path, tier, seed):
